@@ -927,6 +927,7 @@ func (c *Cluster) AliveNodes() []*SNode {
 
 // Submit hands a transaction to a node through the real admission path.
 func (c *Cluster) Submit(n *SNode, tx *common.VersionedTransaction) (id string, err error) {
+	tx = decoded(tx) // the RPC layer hands the node a decoded transaction
 	ok := c.Step(n, "client", func() {
 		id, err = n.Node.QueueTransaction(tx)
 	})
@@ -978,4 +979,21 @@ func DescribeMessage(data []byte) string {
 		return fmt.Sprintf("precommit %d", len(msg.Commitments))
 	}
 	return fmt.Sprintf("t%d", msg.Type)
+}
+
+// decoded returns the transaction as decoded from its own encoding (every
+// key and signature an object of its own); values that cannot be encoded or
+// decoded are passed on unchanged.
+func decoded(ver *common.VersionedTransaction) (out *common.VersionedTransaction) {
+	out = ver
+	defer func() {
+		if recover() != nil {
+			out = ver
+		}
+	}()
+	dec, err := common.UnmarshalVersionedTransaction(ver.Marshal())
+	if err != nil || dec.PayloadHash() != ver.PayloadHash() {
+		return ver
+	}
+	return dec
 }
